@@ -125,7 +125,21 @@ def resolve_deep(t, asg):
             if d is not None:
                 return x[2] if d else x[3]
         return None
-    return subst(t, f)
+
+    def fold(x):
+        # conditions that became constants through the substitution (a decided condition occurring inside another condition)
+        if x[0] == "ifexp" and x[1][0] == "const" and isinstance(x[1][1], bool):
+            return x[2] if x[1][1] else x[3]
+        if x[0] == "unop" and x[1] == "not" and x[2][0] == "const" and isinstance(x[2][1], bool):
+            return C(not x[2][1])
+        return None
+    r = subst(t, f)
+    for _ in range(4):
+        r2 = subst(r, fold)
+        if r2 == r:
+            break
+        r = r2
+    return r
 
 
 def spine_cases(t):
